@@ -735,7 +735,7 @@ void add_s7(mc::Runner &R, const std::string &name, bool quick, bool thorough) {
                             {GeometryAttribute::COLOR, DT_UINT8, 4, 0},        {GeometryAttribute::TEX_COORD, DT_FLOAT32, 2, 12}};
   static const int sets[3][4] = {{0, 1, 2, 3}, {0, 2, 5, 4}, {0, 1, 3, 4}};
   // (set 3) x (order 24) x (uid scheme 3) x (geometry/method 7: mesh seq s10, eb std s0, eb std s5, eb valence s3, eb std s7; cloud seq, cloud kd)
-  // x (geometry 2: 4 points / two triangles; 4x4 vertex grid, 18 triangles - large enough for the traversal orders of the
+  // x (geometry 2: 4 points / two triangles; 8x8 vertex grid, 98 triangles - large enough for the traversal orders of the
   // attributes (prediction degree vs depth first) to differ)
   mc::Radix rx{7, 3, 24, 3, 2};
   auto make = [=](uint64_t idx, GeomDef *g, EncCfg *c) {
@@ -755,15 +755,15 @@ void add_s7(mc::Runner &R, const std::string &name, bool quick, bool thorough) {
     const bool cloud = d[0] >= 5;
     g->is_mesh = !cloud;
     const bool grid = d[4] == 1;
-    g->num_points = grid ? 16 : 4;
+    g->num_points = grid ? 64 : 4;
     if (!cloud) {
       if (!grid) g->faces = {{0, 1, 2}, {2, 1, 3}};
       else
-        for (int y = 0; y < 3; ++y)
-          for (int x = 0; x < 3; ++x) {
-            const int a0 = y * 4 + x;
-            g->faces.push_back({a0, a0 + 1, a0 + 5});
-            g->faces.push_back({a0, a0 + 5, a0 + 4});
+        for (int y = 0; y < 7; ++y)
+          for (int x = 0; x < 7; ++x) {
+            const int a0 = y * 8 + x;
+            g->faces.push_back({a0, a0 + 1, a0 + 9});
+            g->faces.push_back({a0, a0 + 9, a0 + 8});
           }
     }
     c->qbits.clear();
@@ -783,7 +783,7 @@ void add_s7(mc::Runner &R, const std::string &name, bool quick, bool thorough) {
             float p[3];
             gs::id_position(v % 4, p);
             f = {p[0], p[1], p[2]};
-            if (grid) f = {(float)(v % 4), (float)(v / 4), 0.5f * ((v * v) % 3)};
+            if (grid) f = {(float)(v % 8), (float)(v / 8), 0.5f * ((v * v) % 3)};
           }
           ad.entries.push_back(bytes_of(f));
         } else if (a.dt == DT_INT16) {
